@@ -229,9 +229,18 @@ def run_irrep(ctx, case):
     Dm1, Dm2, Dm12 = g.get_su2_irrep(j2, U1), g.get_su2_irrep(j2, U2), g.get_su2_irrep(j2, U1 @ U2)
     sign_ok = (lambda X, Y: min(np.abs(X - Y).max(), np.abs(X + Y).max() if j2 % 2 == 1 else np.inf))
     ctx.small(sign_ok(Dm1, want), 1e-5, 'D^j(matrix) = D^j(angles) (up to the SU(2) sign for half-integer spin)')
-    ctx.small(sign_ok(Dm12, Dm1 @ Dm2), 1e-5, 'D(U1 U2) = D(U1) D(U2)')
+    # the matrix form resolves the SU(2) sign (gamma in (0,4pi)): D is a representation of SU(2) itself, exactly, also where cos(beta/2) = 0
+    ctx.close(Dm12, Dm1 @ Dm2, 1e-5, 'D(U1 U2) = D(U1) D(U2)')
     if j2 == 1:
-        ctx.small(sign_ok(Dm1, U1), 1e-6, 'D^{1/2}(U) = U')
+        ctx.close(Dm1, U1, 1e-6, 'D^{1/2}(U) = U')
+    # exactly anti-diagonal (beta = pi, a == 0) and exactly diagonal (beta = 0, b == 0) group elements
+    ph = np.exp(1j * (A1[0] - A1[2]) / 2)
+    for name, Ue in (('anti-diagonal', np.array([[0, -np.conj(ph)], [ph, 0]])), ('diagonal', np.array([[np.conj(ph), 0], [0, ph]])), ('minus identity', -np.eye(2, dtype=np.complex128))):
+        De = g.get_su2_irrep(j2, Ue)
+        if j2 == 1:
+            ctx.close(De, Ue, 1e-6, f'D^{{1/2}}(U) = U for an exactly {name} U')
+        ctx.close(g.get_su2_irrep(j2, Ue @ U2), De @ Dm2, 1e-5, f'D(U1 U2) = D(U1) D(U2) with an exactly {name} U1')
+        ctx.close(g.get_su2_irrep(j2, U2 @ Ue), Dm2 @ De, 1e-5, f'D(U1 U2) = D(U1) D(U2) with an exactly {name} U2')
     if j2 == 2:
         ctx.close(np.trace(Dm1).real, np.trace(g.su2_to_so3(U1)), 1e-6, 'D^1 is equivalent to the SO(3) image (characters agree)')
     if j2 == 0:
